@@ -1,16 +1,22 @@
 """C03 — the combined event filter equals the specification of the settings.
 
-Correspondence: the real `dclab.new_dataset(dict)` object driven through
-histories of setting changes and `apply_filter()` calls, against Model/C03.v
-(`run_flat`, evaluated by vm_compute): `.all/.box/.polygon/.invalid` after
-every application.
-Property oracle (model independent): a stateless from-scratch evaluation of
-`ds.config["filtering"]`, the polygon filter instances and `filter.manual` in
-plain Python (`reference`), compared with `ds.filter.*` after every
-`apply_filter()`.
+Correspondence (1): the real dataset object (`dclab.new_dataset(dict)`, or a
+hierarchy child of one) driven through histories of setting changes and
+`apply_filter()` calls, against Model/C03.v (`run_flat`, evaluated by
+vm_compute): `.all/.box/.polygon/.invalid` after every application, `[9]`
+for an application that raised ValueError.
+Correspondence (2): the Coq SPECIFICATION (`spec_flat`: spec_all/spec_box/
+spec_polygon/spec_invalid of the settings before each application) against
+the stateless Python `reference`.
+Property oracle (model independent): `reference`, a from-scratch evaluation
+of `ds.config["filtering"]`, the polygon filter instances, the current
+feature data and `filter.manual` in plain Python, compared with
+`ds.filter.*` after every successful `apply_filter()`; two applications with
+nothing changed in between must select the same events.
 Oracles of the proof checked here: the seeded random choice of "limit events"
-(distinct, in range, right count, deterministic) and the polygon hash
-(a function of, and injective in, (axes, points, inverted)).
+(distinct, in range, right count, deterministic, a function of pool size and
+limit) and the polygon hash (per filter a function of, and injective in,
+(axes, points, inverted)).
 """
 import json
 import os
@@ -21,66 +27,82 @@ PROP = "C03"
 RULE = ("random histories (1-60 operations) of set/change/delete range "
         "(bounds tied to data values, reversed, equal, infinite, NaN; both "
         "keys or a single key, earlier values restored, applications that "
-        "raise because a range has one key only), "
-        "add/remove/modify/invert polygon filters, remove-invalid and enable "
-        "switches, limit events (0, negative, below/at/above the number of "
-        "qualifying events), manual exclusions, reset_filter and "
-        "apply_filter (optionally with force), temporary features set on / "
-        "deregistered from the dataset (ranges configured before the "
-        "feature exists), over in-memory datasets of "
-        "1-40 events and 1-4 scalar features (+index, 0-2 temporary) with "
+        "raise because a range has one key only or `force` names an unknown "
+        "feature, always followed by restoring earlier settings), "
+        "add/remove/invert polygon filters, modify them in place (new "
+        "vertices, or the SAME vertices on swapped/other axes), "
+        "remove-invalid and enable switches, limit events (0, negative, "
+        "below/at/above the number of qualifying events, 2**32 and above), "
+        "manual exclusions, reset_filter and apply_filter (optionally with "
+        "force), temporary features set on / deregistered from the dataset "
+        "(ranges configured before the feature exists), replaced data of a "
+        "temporary feature followed by apply_filter(force=[feature]), over "
+        "in-memory datasets (15 % as hierarchy child) of 1-40 events and 1-4 "
+        "scalar features (+index, 0-2 temporary, in 30 % a computed "
+        "area_ratio with NaN where all stored features are finite) with "
         "dyadic values, ties, NaN and +-inf; a case is non-trivial when it "
         "applies at least twice with a settings change in between and some "
         "application selects a proper non-empty subset; distinct = different "
         "(data, polygons, ops)")
 TRUSTED_BASE = [
     "oracle choice_spec: the seeded np.random.choice used by "
-    "downsampling.downsample_rand returns `limit` distinct indices below the "
-    "pool size (checked on every observed (pool, limit) pair and by calling "
-    "the compiled module twice)",
-    "oracle hash_inj: PolygonFilter.hash (md5) is a function of and injective "
-    "in (axes, points, inverted) (checked on the polygons of every case)",
+    "downsampling.downsample_rand (the COMPILED module; its source is "
+    "C16's subject) returns `limit` distinct indices below the pool size and "
+    "is a function of (pool size, limit) (checked on every observed pair "
+    "and by calling the compiled module twice)",
+    "oracle hash_inj: per polygon filter, PolygonFilter.hash (md5) is a "
+    "function of and injective in (axes, points, inverted) (checked on the "
+    "polygons of every case, including equal vertices on different axes)",
     "point-in-polygon classification is data of the case (property C15); "
     "the inside mask is computed by dclab's points_in_poly on fresh arrays",
     "float comparisons are exact on the generated dyadic values; rounding is "
     "not modelled",
-    "not modelled: warnings, KeyError for a polygon id without instance, "
-    "ValueError for an unknown feature name in `force`, hierarchy parent "
-    "(a hierarchy child runs the same Filter.update; its feature set follows "
-    "the parent's, which is the AddFeat/DelFeat case)",
+    "not modelled: warnings; KeyError for a polygon id without instance "
+    "(model: version 0, not inverted) and IndexError/wrap-around of "
+    "filter.manual[i] for i outside 0..n-1 (model: no-op): the generator "
+    "never goes there; Filter.__getitem__ and wholesale replacement of "
+    "filter.manual are not operations of the model",
+    "Model/C03.v box_seq, sortZ and the variants V0-V2 describe EARLIER "
+    "versions of Filter.update; they occur only in the three *_refuted "
+    "theorems that document the repaired defects and are compared with no "
+    "code",
 ]
 ASSUMPTIONS = [
     "the selection is specified after applications that do not raise; an "
-    "application raises ValueError exactly when a range has only one of its "
-    "two keys (theorem C03_apply_raises_iff)",
-    "polygon ids in the settings refer to existing PolygonFilter instances "
-    "whose axes are features of the dataset",
-    "0 <= 'limit events' < 2**32 or negative (uint32 conversion not modelled)",
-    "the DATA of a feature never changes: calling set_temporary_feature "
-    "again on an existing temporary feature replaces its data, and the box "
-    "and polygon caches carry no data hash, so the old mask stays until the "
-    "range changes, `force` names the feature or reset_filter() is called "
-    "(observed on HEAD: data [0,1,2,3] -> [1,1,5,5], range [1,2]: "
-    "filter.all stays [F,T,T,F]); replacing feature data is not an "
-    "operation of C03's quantifier (cache/data coherence is C06/C17). The "
-    "feature SET may change (temporary features appearing/disappearing is "
-    "modelled: AddFeat/DelFeat, pruning in _init_rtdc_ds)",
+    "application raises ValueError exactly when `force` names an unknown "
+    "feature or a range has only one of its two keys (theorem "
+    "C03_apply_raises_iff); it never raises because of the limit",
+    "replacing the DATA of a feature (set_temporary_feature on an existing "
+    "temporary feature; not an operation of C03's quantifier) is modelled "
+    "(ReplaceTemp, ghost state `stale`): the caches carry no data hash, so "
+    "the theorems for such histories carry the guard `stale = []`, which "
+    "apply_filter(force=[feature]) establishes (C03_force_refreshes); the "
+    "generator always forces replaced features; the unforced case is the "
+    "Coq witness C03_replaced_data_unforced_stale (observed on HEAD: data "
+    "[0,1,2,3] -> [1,1,5,5], range [1,2]: filter.all stays [F,T,T,F])",
+    "polygon ids in the settings refer to existing PolygonFilter instances; "
     "polygon filters use features that are always part of the dataset (a "
-    "polygon on a vanished feature makes update raise KeyError)",
-    "ranges of a deregistered temporary feature are not edited and are not "
-    "half-set at deregistration (ConfigurationDict refuses keys of unknown "
-    "features; Filter.update ignores them)",
+    "polygon on a deregistered temporary feature stays applied: its data "
+    "remain accessible; not modelled)",
+    "ranges of a deregistered temporary feature are not edited, not forced "
+    "and are not half-set at deregistration (ConfigurationDict refuses keys "
+    "of unknown features; Filter.update ignores them)",
+    "hierarchy children are exercised without temporary features (setting "
+    "one on a child rejuvenates it, which is an application of its own)",
 ]
 
 POOL = ["area_um", "aspect", "bright_avg", "deform", "tilt", "pos_x"]
 
 T_SETRANGE, T_DELRANGE, T_ADDPOLY, T_RMPOLY, T_MODPOLY, T_INVPOLY, \
     T_INVALID, T_ENABLE, T_LIMIT, T_MANUAL, T_RESET, T_APPLY, \
-    T_SETMIN, T_SETMAX, T_DELMIN, T_DELMAX, T_ADDFEAT, T_DELFEAT = range(18)
+    T_SETMIN, T_SETMAX, T_DELMIN, T_DELMAX, T_ADDFEAT, T_DELFEAT, \
+    T_REPLTEMP = range(19)
 OPNAMES = ["SetRange", "DelRange", "AddPoly", "RmPoly", "ModPoly",
            "InvertPoly", "SetInvalid", "SetEnable", "SetLimit", "EditManual",
            "Reset", "Apply", "SetMin", "SetMax", "DelMin", "DelMax",
-           "AddFeat", "DelFeat"]
+           "AddFeat", "DelFeat", "ReplaceTemp"]
+UNKNOWN_FEATURE = "nosuchfeat"   # not a dclab feature: apply_filter(force=) raises
+UNKNOWN_ID = 999
 TEMP = ["vtmp_a", "vtmp_b"]      # temporary features (registered on demand)
 VARIANT = 3                      # repairs of Filter.update present in the model
 RANGE_TAGS = (T_SETRANGE, T_DELRANGE, T_SETMIN, T_SETMAX, T_DELMIN, T_DELMAX)
@@ -168,20 +190,60 @@ def gen_case(rng, thorough=False, maxops=60):
     # "index" is always a feature of the dataset
     cols = dict(data)
     cols["index"] = [[0, 8 * (i + 1)] for i in range(n)]
+    computed = []
+    if rng.random() < 0.3:
+        # a COMPUTED scalar feature with NaN where every stored feature is
+        # finite: area_ratio = area_cvx / area_msd (NaN where area_msd == 0)
+        msd = [rng.choice([0, 1, 1, 2]) for _ in range(n)]
+        cvx = [2 * rng.randint(0, 12) for _ in range(n)]     # even k/8
+        data["area_msd"] = [[0, 8 * m] for m in msd]
+        data["area_cvx"] = [[0, k] for k in cvx]
+        cols["area_msd"], cols["area_cvx"] = data["area_msd"], data["area_cvx"]
+        cols["area_ratio"] = [[0, k // m] if m else [1, 0]
+                              for k, m in zip(cvx, msd)]
+        computed = ["area_cvx", "area_msd", "area_ratio"]
+    present = sorted(present + computed)
     axes_pool = present + ["index"]
-    nver = rng.randint(1, 5)
+    nver = rng.randint(1, 4)
     versions = []
     for _ in range(nver):
         ax = [rng.choice(axes_pool), rng.choice(axes_pool)]
         versions.append(dict(axes=ax, points=gen_points(rng, cols[ax[0]],
                                                         cols[ax[1]])))
+    # the same vertices on other axes (swapped, or one axis replaced)
+    twins = {}
+    for v in range(nver):
+        if rng.random() < 0.6:
+            ax = list(versions[v]["axes"])
+            if ax[0] != ax[1] and rng.random() < 0.6:
+                ax2 = [ax[1], ax[0]]
+            else:
+                ax2 = [ax[0], rng.choice(axes_pool)]
+                if ax2 == ax:
+                    ax2 = [rng.choice(axes_pool), ax[1]]
+            if ax2 != ax:
+                versions.append(dict(axes=ax2,
+                                     points=[list(p) for p in
+                                             versions[v]["points"]]))
+                twins[v] = len(versions) - 1
+                twins[len(versions) - 1] = v
+    nver = len(versions)
     npoly = rng.choice([0, 1, 2, 2, 3])
     reg = [[i, rng.randrange(nver), rng.choice([0, 0, 1])]
            for i in range(npoly)]
+    pv = {i: v for i, v, _ in reg}          # current version of a polygon
     temp = {}
-    for name in TEMP[:rng.choice([0, 1, 1, 2])]:
+    temp_alt = {}
+    # a share of the cases runs on a hierarchy child of an unfiltered parent
+    # (HierarchyFilter); no temporary features there: setting one on a child
+    # rejuvenates it, which is an application of its own
+    kind = "child" if rng.random() < 0.15 else "dict"
+    for name in TEMP[:rng.choice([0, 1, 1, 2]) if kind == "dict" else 0]:
         temp[name] = gen_column(rng, n)
         cols[name] = temp[name]
+        if rng.random() < 0.5:
+            temp_alt[name] = [gen_column(rng, n)
+                              for _ in range(rng.randint(1, 2))]
     tstate = {name: "unset" for name in temp}   # unset / present / deregistered
     rfeats = present + ["index"] + absent + sorted(temp)   # features ranges may name
     ops = []
@@ -215,6 +277,11 @@ def gen_case(rng, thorough=False, maxops=60):
                     and rng.random() < 0.5:
                 ops.append([T_DELFEAT, [name], []])
                 tstate[name] = "deregistered"
+            elif tstate[name] == "present" and name in temp_alt \
+                    and rng.random() < 0.6:
+                # other data for an existing temporary feature
+                k = rng.randrange(len(temp_alt[name]) + 1)
+                ops.append([T_REPLTEMP, [name, k], []])
             else:
                 ops.append([T_ADDFEAT, [name], []])
                 tstate[name] = "present"
@@ -280,8 +347,13 @@ def gen_case(rng, thorough=False, maxops=60):
             if pid in polys_in:
                 polys_in.remove(pid)
         elif r < 0.50 and npoly:
-            ops.append([T_MODPOLY, [rng.randrange(npoly),
-                                    rng.randrange(nver)], []])
+            pid = rng.randrange(npoly)
+            if pv[pid] in twins and rng.random() < 0.6:
+                v = twins[pv[pid]]         # same vertices, other axes
+            else:
+                v = rng.randrange(nver)
+            pv[pid] = v
+            ops.append([T_MODPOLY, [pid, v], []])
         elif r < 0.54 and npoly:
             ops.append([T_INVPOLY, [rng.randrange(npoly)], []])
         elif r < 0.59:
@@ -291,7 +363,8 @@ def gen_case(rng, thorough=False, maxops=60):
         elif r < 0.70:
             k = rng.choice([0, 0, -1, 1, 2, n - 1, n, n + 1,
                             rng.randint(1, n + 2), max(1, n // 2),
-                            max(1, n // 3)])
+                            max(1, n // 3), max(1, n // 2), 2 ** 32,
+                            2 ** 32 + 3])
             ops.append([T_LIMIT, [k], []])
         elif r < 0.76:
             ops.append([T_MANUAL, [rng.randrange(n), rng.choice([0, 0, 1])],
@@ -304,6 +377,8 @@ def gen_case(rng, thorough=False, maxops=60):
             if rng.random() < 0.1:
                 force = [rng.choice(rfeats)
                          for _ in range(rng.randint(1, 2))]
+            if rng.random() < 0.02:
+                force.append(UNKNOWN_FEATURE)       # raises ValueError
             ops.append([T_APPLY, force, []])
     if rng.random() < 0.12:
         # an application that raises between two settings of the same range
@@ -319,8 +394,95 @@ def gen_case(rng, thorough=False, maxops=60):
         k = rng.randint(0, len(ops))
         ops[k:k] = seq
     ops.append([T_APPLY, [], []])
-    return dict(n=n, data=data, absent=absent, temp=temp, versions=versions,
-                reg=reg, ops=ops)
+    if temp_alt and rng.random() < 0.35:
+        # replaced data with an active range: only force refreshes the mask
+        f = rng.choice(sorted(temp_alt))
+        cf = cols[f]
+        seq = [[T_ADDFEAT, [f], []],
+               [T_SETRANGE, [f], [gen_bound(rng, cf), gen_bound(rng, cf)]],
+               [T_APPLY, [], []],
+               [T_REPLTEMP, [f, rng.randrange(1, len(temp_alt[f]) + 1)], []],
+               [T_APPLY, [], []]]
+        k = rng.randint(0, len(ops))
+        cand = ops[:k] + seq + ops[k:]
+        if temp_discipline(cand):
+            ops = cand
+    case = dict(n=n, kind=kind, data=data, absent=absent, temp=temp,
+                temp_alt=temp_alt, versions=versions, reg=reg, ops=ops)
+    force_replaced(case)
+    return case
+
+
+def temp_discipline(ops):
+    """The generator's restrictions on temporary features (ASSUMPTIONS): no
+    range edits, no force and no data replacement while deregistered, not
+    half-set at deregistration."""
+    keys = {}
+    dereg = set()
+    for t, a, _ in ops:
+        f = a[0] if a else None
+        if t in RANGE_TAGS and f in dereg:
+            return False
+        if t == T_SETRANGE:
+            keys[f] = {"min", "max"}
+        elif t == T_DELRANGE:
+            keys[f] = set()
+        elif t in (T_SETMIN, T_SETMAX):
+            keys.setdefault(f, set()).add("min" if t == T_SETMIN else "max")
+        elif t in (T_DELMIN, T_DELMAX):
+            keys.setdefault(f, set()).discard(
+                "min" if t == T_DELMIN else "max")
+        elif t == T_ADDFEAT:
+            dereg.discard(f)
+        elif t == T_DELFEAT:
+            if len(keys.get(f, ())) == 1:
+                return False
+            dereg.add(f)
+        elif t == T_REPLTEMP and f in dereg:
+            return False
+        elif t == T_APPLY and any(g in dereg for g in a):
+            return False
+    return True
+
+
+def force_replaced(case):
+    """After the data of a temporary feature were replaced, the box cache
+    (no data hash) is refreshed only by apply_filter(force=[feature]): every
+    application names the replaced features until one of them succeeded.
+    (Replacing feature data is not an operation of the property; an
+    unforced application after it is covered by the Coq witness
+    C03_replaced_data_unforced_stale only.)"""
+    keys = {}
+    dereg = set()
+    pending = set()
+    for op in case["ops"]:
+        t, a = op[0], op[1]
+        f = a[0] if a else None
+        if t == T_SETRANGE:
+            keys[f] = {"min", "max"}
+        elif t == T_DELRANGE:
+            keys[f] = set()
+        elif t in (T_SETMIN, T_SETMAX):
+            keys.setdefault(f, set()).add("min" if t == T_SETMIN else "max")
+        elif t in (T_DELMIN, T_DELMAX):
+            keys.setdefault(f, set()).discard(
+                "min" if t == T_DELMIN else "max")
+        elif t == T_ADDFEAT:
+            dereg.discard(f)
+        elif t == T_DELFEAT:
+            dereg.add(f)
+        elif t == T_REPLTEMP:
+            pending.add(f)
+        elif t == T_RESET:
+            pending.clear()
+        elif t == T_APPLY:
+            for g in sorted(pending):
+                if g not in dereg and g not in a:
+                    a.append(g)
+            raises = UNKNOWN_FEATURE in a or \
+                any(len(ks) == 1 for ks in keys.values())
+            if not raises:
+                pending.clear()        # forced, or pruned while deregistered
 
 
 # --------------------------------------------------------------------------
@@ -419,6 +581,11 @@ def run_impl(case, want_trace=False):
     ddict = {f: np.array([fv2float(p) for p in col], dtype=np.float64)
              for f, col in case["data"].items()}
     ds = dclab.new_dataset(ddict)
+    if case.get("kind") == "child":
+        # a hierarchy child of an unfiltered parent: same events, the filter
+        # object is a HierarchyFilter (runs Filter.update)
+        parent_ds = ds
+        ds = dclab.new_dataset(parent_ds)
     temp = case.get("temp", {})
     for name in temp:
         if not dfn.scalar_feature_exists(name):
@@ -429,6 +596,15 @@ def run_impl(case, want_trace=False):
     cols = {f: np.array(ds[f], dtype=np.float64) for f in feats}
     for name, col in temp.items():
         cols[name] = np.array([fv2float(p) for p in col], dtype=np.float64)
+    # alternative data of temporary features: extra columns after the names
+    temp_alt = case.get("temp_alt", {})
+    altcols = []                         # (name, k) in column order
+    for name in sorted(temp_alt):
+        for k, col in enumerate(temp_alt[name]):
+            altcols.append((name, k + 1))
+            cols[(name, k + 1)] = np.array([fv2float(p) for p in col],
+                                           dtype=np.float64)
+    curtemp = {name: cols[name] for name in temp}
     versions = case["versions"]
     pfs = {}
     for pid, v, inv in case["reg"]:
@@ -449,6 +625,10 @@ def run_impl(case, want_trace=False):
     proper = False
     changed_between = False
     dirty = False
+    last_all = None
+    choice_conflict = None
+    spec_obs = []
+    spec_flat = []
     cfg = ds.config["filtering"]
     trace = []
     for i, (tag, a, fv) in enumerate(case["ops"]):
@@ -470,7 +650,11 @@ def run_impl(case, want_trace=False):
         elif tag == T_ADDFEAT:
             if not dfn.scalar_feature_exists(a[0]):
                 dclab.register_temporary_feature(a[0], is_scalar=True)
-            dclab.set_temporary_feature(ds, a[0], cols[a[0]])
+            dclab.set_temporary_feature(ds, a[0], curtemp[a[0]])
+            dirty = True
+        elif tag == T_REPLTEMP:
+            curtemp[a[0]] = cols[(a[0], a[1])] if a[1] else cols[a[0]]
+            dclab.set_temporary_feature(ds, a[0], curtemp[a[0]])
             dirty = True
         elif tag == T_DELFEAT:
             feat_temp.deregister_temporary_feature(a[0])
@@ -508,9 +692,10 @@ def run_impl(case, want_trace=False):
         elif tag == T_RESET:
             ds.reset_filter()
             dirty = True
+            last_all = None
         else:
             for pid, pf in pfs.items():
-                hashes.setdefault((pver[pid], bool(pf.inverted)),
+                hashes.setdefault((pid, pver[pid], bool(pf.inverted)),
                                   set()).add(pf.hash)
             try:
                 ds.apply_filter(force=list(a) if a else None)
@@ -521,9 +706,11 @@ def run_impl(case, want_trace=False):
                 half = [k for k in cfg.keys()
                         if (k.endswith(" min") and k[:-4] + " max" not in cfg)
                         or (k.endswith(" max") and k[:-4] + " min" not in cfg)]
-                if not half and fail is None:
+                if not half and UNKNOWN_FEATURE not in a and fail is None:
                     fail = ("op %d: apply_filter raised %r although every "
-                            "range has both keys" % (i, e))
+                            "range has both keys and `force` names known "
+                            "features" % (i, e))
+                spec_flat += [9]
                 continue
             except Exception as e:
                 flat += [8]
@@ -533,6 +720,7 @@ def run_impl(case, want_trace=False):
             applies += 1
             if applies > 1 and dirty:
                 changed_between = True
+            was_dirty = dirty
             dirty = False
             flt = ds.filter
             got = dict(all=[bool(x) for x in flt.all],
@@ -540,7 +728,7 @@ def run_impl(case, want_trace=False):
                        polygon=[bool(x) for x in flt.polygon],
                        invalid=[bool(x) for x in flt.invalid])
             flat += b2z(got["all"]) + b2z(got["box"]) + b2z(got["polygon"]) \
-                + b2z(got["invalid"])
+                + b2z(got["invalid"]) + [0]     # 0: no stale feature (ghost)
             # the value of the choice oracle, read off the implementation's
             # own arrays (pool = its box & invalid & polygon & manual)
             pre = [b and v and p and bool(mm) for b, v, p, mm in
@@ -551,10 +739,22 @@ def run_impl(case, want_trace=False):
                 choice.setdefault((sum(pre), cfg["limit events"]),
                                   ranks_of(got["all"], pre))
             box, invalid, polygon, qual = reference(ds, flt.manual)
+            spec_obs.append((box, invalid, polygon, qual,
+                             bool(cfg["enable filters"]),
+                             int(cfg["limit events"])))
+            spec_flat.append(None)          # filled in below
             if want_trace:
                 trace.append(dict(op=i, got=got, qual=qual))
             msg = None
-            if got["box"] != box:
+            if not was_dirty and last_all is not None \
+                    and got["all"] != last_all:
+                msg = ("not reproducible: nothing was changed since the "
+                       "previous application, filter.all went from %s to "
+                       "%s" % (b2z(last_all), b2z(got["all"])))
+            last_all = got["all"]
+            if msg is not None:
+                pass
+            elif got["box"] != box:
                 msg = "filter.box = %s, the ranges in the settings give %s" % (
                     b2z(got["box"]), b2z(box))
             elif got["invalid"] != invalid:
@@ -584,10 +784,10 @@ def run_impl(case, want_trace=False):
                             ranks = ranks_of(sel, qual)
                             old = seen_ranks.setdefault((m, k), ranks)
                             if old != ranks:
-                                msg = ("limit events not reproducible: "
-                                       "pool %d limit %d kept ranks %s "
-                                       "earlier and %s now" % (m, k, old,
-                                                               ranks))
+                                # not a failure of the property (the kept
+                                # subset may depend on more than the pool
+                                # size) but of the proof's choice oracle
+                                choice_conflict = (m, k, old, ranks)
                     elif got["all"] != qual:
                         msg = ("filter.all = %s, the settings give %s" % (
                             b2z(got["all"]), b2z(qual)))
@@ -601,15 +801,35 @@ def run_impl(case, want_trace=False):
     rows = []
     for e in range(n):
         rows.append(([float2fv(float(cols[f][e])) if f in cols else [1, 0]
-                      for f in names],
+                      for f in names + altcols],
                      [bool(x[e]) for x in ins]))
+    # the specification's observation, from the stateless reference
+    it = iter(spec_obs)
+    sflat = []
+    for x in spec_flat:
+        if x is not None:
+            sflat.append(9)
+            continue
+        box, invalid, polygon, qual, en, lim = next(it)
+        if not en:
+            sall = [True] * n
+        elif 0 < lim < sum(qual):
+            ranks = choice.get((sum(qual), lim), [])
+            sall, rnk = [], 0
+            for q in qual:
+                sall.append(bool(q and rnk in ranks))
+                rnk += 1 if q else 0
+        else:
+            sall = qual
+        sflat += b2z(sall) + b2z(box) + b2z(polygon) + b2z(invalid)
     for name in temp:
         if not dfn.scalar_feature_exists(name):
             dclab.register_temporary_feature(name, is_scalar=True)
     res = dict(flat=flat, fail=fail,
                nontrivial=bool(proper and changed_between),
-               feats=feats, names=names, rows=rows, choice=choice,
-               hashes=hashes, applies=applies, raised=raised)
+               feats=feats, names=names, altcols=altcols, rows=rows,
+               choice=choice, hashes=hashes, applies=applies, raised=raised,
+               spec_flat=sflat, choice_conflict=choice_conflict)
     if want_trace:
         res["trace"] = trace
     PolygonFilter.clear_all_filters()
@@ -637,7 +857,9 @@ def render(case, res, variant=VARIANT):
     rows = common.clist(
         "(%s, %s)" % (common.clist(r_fv(p) for p in vals),
                       common.blist(pins)) for vals, pins in res["rows"])
+    altid = {nk: len(names) + i for i, nk in enumerate(res["altcols"])}
     feats = common.zlist(nid[f] for f in res["feats"])
+    known = common.zlist(range(len(names)))
     reg = tlist(("(%d, (%d, %d))" % (pid, v, inv)
                  for pid, v, inv in case["reg"]), "Z * (Z * Z)")
     tab = tlist(("(%d, %d, %s)" % (m, k, common.zlist(r))
@@ -646,17 +868,19 @@ def render(case, res, variant=VARIANT):
     ops = []
     for tag, a, fv in case["ops"]:
         if tag in RANGE_TAGS or tag in (T_ADDFEAT, T_DELFEAT):
-            ints = [nid.get(a[0], len(names))]
+            ints = [nid.get(a[0], UNKNOWN_ID)]
+        elif tag == T_REPLTEMP:
+            ints = [nid[a[0]], altid[(a[0], a[1])] if a[1] else nid[a[0]]]
         elif tag == T_APPLY:
-            ints = [nid.get(f, len(names)) for f in a]
+            ints = [nid.get(f, UNKNOWN_ID) for f in a]
         else:
             ints = list(a)
         ops.append("(%d, %s, %s)" % (tag,
                                      tlist((common.zlit(x) for x in ints),
                                            "Z"),
                                      tlist((r_fv(p) for p in fv), "Z * Z")))
-    return "(%d, %s, %s, %s, %s, %s)" % (variant, rows, feats, reg, tab,
-                                          common.clist(ops))
+    return "(%d, %s, %s, %s, %s, %s, %s)" % (variant, rows, feats, known, reg,
+                                              tab, common.clist(ops))
 
 
 HEADER = ("From Coq Require Import ZArith List Bool.\nImport ListNotations.\n"
@@ -720,8 +944,6 @@ EXH_ALPHABET = [
     ("DelMin deform", [T_DELMIN, ["deform"], []]),
     ("AddPoly 0", [T_ADDPOLY, [0], []]),
     ("InvertPoly 0", [T_INVPOLY, [0], []]),
-    ("SetLimit 2", [T_LIMIT, [2], []]),
-    ("SetInvalid 1", [T_INVALID, [1], []]),
     ("SetEnable 0", [T_ENABLE, [0], []]),
     ("Reset", [T_RESET, [], []]),
     ("AddFeat vtmp_a", [T_ADDFEAT, ["vtmp_a"], []]),
@@ -778,7 +1000,7 @@ def exhaustive_sweep(run):
             nfail += 1
             run.oracle_failure(c, fail, classify(c, fail))
     model = common.coq_map(run.scratch, "c03x", HEADER, "run_flat",
-                           [r[1] for r in results], shard=600)
+                           [r[1] for r in results], shard=250)
     ndis = 0
     for c, m, r in zip(cases, model, results):
         run.corr_checked += 1
@@ -802,40 +1024,49 @@ def run(run):
         cases.append(gen_case(run.rng, run.thorough))
     rendered = []
     impl = []
+    impl_spec = []
     allpairs = {}
     for c in cases:
         res = run_impl(c)
         impl.append(res["flat"])
+        impl_spec.append(res["spec_flat"])
         rendered.append(render(c, res))
         run.record_case(c, res["nontrivial"])
         run.count("events=%d" % c["n"])
+        run.count("dataset:" + c.get("kind", "dict"))
         run.count("features=%d" % len(res["feats"]))
         run.count("applies", res["applies"])
         run.count("applies-that-raised", res["raised"])
         for o in c["ops"]:
             run.count("op:" + OPNAMES[o[0]])
-        for key, hs in res["hashes"].items():
+        # hash_inj: per filter the hash is a function of, and injective in,
+        # (axes, points, inverted)
+        seen = {}
+        for (pid, v, inv), hs in res["hashes"].items():
             if len(hs) != 1:
                 run.broken.append(("oracle-hypothesis hash_inj",
-                                   "polygon hash is not a function of "
-                                   "(axes, points, inverted): %r" % (hs,)))
-        hv = [next(iter(hs)) for hs in res["hashes"].values()]
-        # different vertex sets may coincide by chance: compare content
-        seen = {}
-        for (v, inv), hs in res["hashes"].items():
+                                   "the hash of polygon filter %d is not a "
+                                   "function of (axes, points, inverted): "
+                                   "%r" % (pid, sorted(hs))))
             content = (json.dumps(c["versions"][v], sort_keys=True), inv)
             h = next(iter(hs))
-            if h in seen and seen[h] != content:
-                run.broken.append(("oracle-hypothesis hash_inj",
-                                   "hash collision %r" % (h,)))
-            seen[h] = content
-        del hv
+            if (pid, h) in seen and seen[(pid, h)] != content:
+                run.broken.append((
+                    "oracle-hypothesis hash_inj",
+                    "polygon filter %d has the same hash for %s and %s" % (
+                        pid, seen[(pid, h)], content)))
+            seen[(pid, h)] = content
+            run.count("hash-oracle-points")
+        if res["choice_conflict"] is not None:
+            run.broken.append((
+                "oracle-hypothesis choice is a function of (pool, limit)",
+                "pool %d limit %d kept ranks %s and %s" %
+                res["choice_conflict"]))
         for key, ranks in res["choice"].items():
             if key in allpairs and allpairs[key] != ranks:
-                run.oracle_failure(c, "limit events not reproducible across "
-                                   "datasets: pool %d limit %d kept ranks %s "
-                                   "and %s" % (key[0], key[1], allpairs[key],
-                                               ranks), None)
+                run.notes.append("pool %d limit %d: ranks %s and %s in two "
+                                 "datasets" % (key[0], key[1], allpairs[key],
+                                               ranks))
             allpairs.setdefault(key, ranks)
         if res["fail"] is not None:
             run.oracle_failure(c, res["fail"], classify(c, res["fail"]))
@@ -846,6 +1077,14 @@ def run(run):
         run.corr_checked += 1
         if m != i:
             run.mismatch(c, m, i)
+    # the Coq SPECIFICATION (spec_all/box/polygon/invalid) against the
+    # stateless Python reference
+    spec = common.coq_map(run.scratch, "c03s", HEADER, "spec_flat", rendered,
+                          shard=40 if not run.thorough else 100)
+    for c, m, i in zip(cases, spec, impl_spec):
+        run.count("spec-vs-reference")
+        if m != i:
+            run.mismatch(c, m, i, what="Coq spec vs Python reference")
     if run.thorough:
         exhaustive_sweep(run)
 
@@ -884,7 +1123,10 @@ def shrink(run, failure):
                         data={f: col[:e] + col[e + 1:]
                               for f, col in small["data"].items()},
                         temp={f: col[:e] + col[e + 1:]
-                              for f, col in small.get("temp", {}).items()})
+                              for f, col in small.get("temp", {}).items()},
+                        temp_alt={f: [col[:e] + col[e + 1:] for col in alts]
+                                  for f, alts in
+                                  small.get("temp_alt", {}).items()})
             if _fails(cand):
                 small = cand
                 changed = True
